@@ -163,7 +163,7 @@ Inductive centry := CPos (m : msg) | CNeg (nx : bool) (m : msg) | CExpired.
 
 Record pool := mkPool { pzone : name; pips : list ip }.
 
-Record event := mkEv { e_ip : ip; e_q : query; e_zone : name }.
+Record event := mkEv { e_ip : ip; e_q : query; e_zone : name; e_pool : list ip }.
 
 Record st := mkSt {
   rcache : list (query * centry);      (* response_cache, newest first *)
@@ -179,6 +179,12 @@ Inductive res (A : Type) :=
 | Fail (s : st) (e : rerr)
 | OutOfFuel.
 Arguments Done {A}. Arguments Fail {A}. Arguments OutOfFuel {A}.
+
+(* outcome of one iteration of the zone loop *)
+Inductive step := SNext (depth : N) (p : pool) (s : st) | SStop (s : st) (e : rerr) | SFuel.
+
+(* outcome of one iteration of the alias loop: the records to append *)
+Inductive cstep := CNext (add : list rr) (s : st) | CStop (s : st) (e : rerr) | CFuel.
 
 Fixpoint assoc {K V} (eqb : K -> K -> bool) (k : K) (l : list (K * V)) : option V :=
   match l with
@@ -260,7 +266,7 @@ Definition send (p : pool) (q : query) (s : st) : st * (msg + perr) :=
     match choose (pips p) q with
     | None => (s, inr PNoConn)
     | Some a =>
-        (log_ev s (mkEv a q (pzone p)),
+        (log_ev s (mkEv a q (pzone p) (pips p)),
          match classify q (net a q) with
          | inl m => pool_filter m
          | inr e => inr e
@@ -423,46 +429,63 @@ Fixpoint ap_pools (zone : name) (depth : N) (p : pool) (need : list name) (s : s
 Definition any_ns (zone : name) (m : msg) : bool :=
   existsb (fun r => is_ns r && name_eqb (owner r) zone) (all_sections m).
 
-(* the loop "for i in 1..=num_labels" with the current pool *)
+(* the NS query for [zone]: from the cache or from the current pool, filtered by the parent *)
+Definition ns_fetch (q : query) (parent : name) (p : pool) (s : st) : st * (msg + rerr) :=
+  match cache_get q s with
+  | Some (inl m) => (s, inl m)
+  | Some (inr e) => (s, inr (to_rerr e))
+  | None => lookup q parent p s
+  end.
+
+(* config_group and need_ips_for_names from the NS reply *)
+Definition ns_conf (parent : name) (m : msg) (s : st) : list ip * list name :=
+  let '(_, conf, need) :=
+    collect_ns parent s (all_sections m) (add_glue [] (all_sections m)) [] [] in
+  (conf, need).
+
+(* "if config_group.is_empty() && !need_ips_for_names.is_empty()": append_ips_from_lookup *)
+Definition ns_addrs (zone : name) (depth : N) (p : pool) (conf : list ip) (need : list name) (s : st)
+  : option (st * list ip) :=
+  if is_nil conf && negb (is_nil need) then
+    match ap_pools zone depth p need s with
+    | Some (s2, pq) => Some (addr_lookups pq s2)
+    | None => None
+    end
+  else Some (s, conf).
+
+(* one iteration of the loop "for i in 1..=num_labels" with the current pool *)
+Definition ns_step (zone : name) (depth : N) (p : pool) (s : st) : step :=
+  match assoc name_eqb zone (nscache s) with
+  | Some cp => SNext depth cp s
+  | None =>
+      let depth := depth + 1 in
+      if negb (depth <? ns_limit c) then SStop s ERecLimit
+      else
+        let parent := base_name zone in
+        let '(s1, lr) := ns_fetch (zone, T_NS) parent p s in
+        match lr with
+        | inr e => if is_nx e then SStop s1 e else SNext depth p s1
+        | inl m =>
+            if negb (any_ns zone m) then SNext depth p s1
+            else
+              let '(conf, need) := ns_conf parent m s1 in
+              match ns_addrs zone depth p conf need s1 with
+              | None => SFuel
+              | Some (s3, conf') =>
+                  let np := mkPool zone conf' in
+                  SNext depth np (put_pool zone np s3)
+              end
+        end
+  end.
+
 Fixpoint ns_loop (zones : list name) (depth : N) (p : pool) (s : st) : res (N * pool) :=
   match zones with
   | [] => Done s (depth, p)
   | zone :: rest =>
-      match assoc name_eqb zone (nscache s) with
-      | Some cp => ns_loop rest depth cp s
-      | None =>
-          let depth := depth + 1 in
-          if negb (depth <? ns_limit c) then Fail s ERecLimit
-          else
-            let parent := base_name zone in
-            let q := (zone, T_NS) in
-            let '(s1, lr) :=
-              match cache_get q s with
-              | Some (inl m) => (s, inl m)
-              | Some (inr e) => (s, inr (to_rerr e))
-              | None => lookup q parent p s
-              end in
-            match lr with
-            | inr e => if is_nx e then Fail s1 e else ns_loop rest depth p s1
-            | inl m =>
-                if negb (any_ns zone m) then ns_loop rest depth p s1
-                else
-                  let g0 := add_glue [] (all_sections m) in
-                  let '(_, conf, need) := collect_ns parent s1 (all_sections m) g0 [] [] in
-                  let r2 :=
-                    if is_nil conf && negb (is_nil need) then
-                      match ap_pools zone depth p need s1 with
-                      | Some (s2, pq) => Some (addr_lookups pq s2)
-                      | None => None
-                      end
-                    else Some (s1, conf) in
-                  match r2 with
-                  | None => OutOfFuel
-                  | Some (s3, conf') =>
-                      let np := mkPool zone conf' in
-                      ns_loop rest depth np (put_pool zone np s3)
-                  end
-            end
+      match ns_step zone depth p s with
+      | SNext depth' p' s' => ns_loop rest depth' p' s'
+      | SStop s' e => Fail s' e
+      | SFuel => OutOfFuel
       end
   end.
 End NsLoop.
@@ -482,28 +505,33 @@ Section Cnames.
 Variable rec : query -> N -> st -> res msg.   (* self.resolve(cname_query, .., depth, cname_limit) *)
 Variable fuel_ns : nat.
 
-(* the loop over response.all_sections(); [ans] = the response's own answer section *)
+(* one iteration of the loop over response.all_sections(); [ans] = the response's own answers *)
+Definition cname_step (ans : list rr) (qt : N) (depth : N) (r : rr) (s : st) : cstep :=
+  match rdat r with
+  | RCNAME t =>
+      if existsb (fun a => name_eqb (owner a) t) ans then CNext [] s
+      else
+        let count := cn s + 1 in
+        let s0 := set_cn s count in
+        if MAX_CNAME_LOOKUPS <? count then CStop s0 ECnameLimit
+        else
+          match rec (t, qt) depth s0 with
+          | Done s1 m => CNext (filter (fun a => is_type qt a || is_cname a) (an m)) s1
+          | Fail s1 e => CStop s1 e
+          | OutOfFuel => CFuel
+          end
+  | _ => CNext [] s
+  end.
+
 Fixpoint cname_loop (ans : list rr) (qt : N) (depth : N) (rs : list rr) (chain : list rr) (s : st)
   : res (list rr) :=
   match rs with
   | [] => Done s chain
   | r :: rs' =>
-      match rdat r with
-      | RCNAME t =>
-          if existsb (fun a => name_eqb (owner a) t) ans then cname_loop ans qt depth rs' chain s
-          else
-            let count := cn s + 1 in
-            let s0 := set_cn s count in
-            if MAX_CNAME_LOOKUPS <? count then Fail s0 ECnameLimit
-            else
-              match rec (t, qt) depth s0 with
-              | Done s1 m =>
-                  cname_loop ans qt depth rs'
-                    (chain ++ filter (fun a => is_type qt a || is_cname a) (an m)) s1
-              | Fail s1 e => Fail s1 e
-              | OutOfFuel => OutOfFuel
-              end
-      | _ => cname_loop ans qt depth rs' chain s
+      match cname_step ans qt depth r s with
+      | CNext add s1 => cname_loop ans qt depth rs' (chain ++ add) s1
+      | CStop s1 e => Fail s1 e
+      | CFuel => OutOfFuel
       end
   end.
 
@@ -521,29 +549,32 @@ Definition resolve_cnames (m : msg) (q : query) (depth : N) (s : st) : res msg :
       | OutOfFuel => OutOfFuel
       end.
 
+(* the client's query itself: authoritative cached reply, or ask the pool found by the walk *)
+Definition final_fetch (q : query) (p : pool) (s : st) : st * (msg + rerr) :=
+  match cache_get q s with
+  | Some (inr e) => (s, inr (to_rerr e))
+  | Some (inl m) => if aa m then (s, inl m) else lookup q (pzone p) p s
+  | None => lookup q (pzone p) p s
+  end.
+
+Definition resolve_miss (q : query) (depth : N) (s : st) : res msg :=
+  let zone := if N.eqb (snd q) T_DS then base_name (fst q) else fst q in
+  match ns_pool fuel_ns zone depth s with
+  | OutOfFuel => OutOfFuel
+  | Fail s1 e => if is_nx e then Fail s1 e else Fail s1 EMsg
+  | Done s1 (depth1, p) =>
+      let '(s2, lr) := final_fetch q p s1 in
+      match lr with
+      | inr e => Fail s2 e
+      | inl m => resolve_cnames m q depth1 s2
+      end
+  end.
+
 Definition resolve_body (q : query) (depth : N) (s : st) : res msg :=
-  let miss :=
-    let zone := if N.eqb (snd q) T_DS then base_name (fst q) else fst q in
-    match ns_pool fuel_ns zone depth s with
-    | OutOfFuel => OutOfFuel
-    | Fail s1 e => if is_nx e then Fail s1 e else Fail s1 EMsg
-    | Done s1 (depth1, p) =>
-        let zone := pzone p in
-        let '(s2, lr) :=
-          match cache_get q s1 with
-          | Some (inr e) => (s1, inr (to_rerr e))
-          | Some (inl m) => if aa m then (s1, inl m) else lookup q zone p s1
-          | None => lookup q zone p s1
-          end in
-        match lr with
-        | inr e => Fail s2 e
-        | inl m => resolve_cnames m q depth1 s2
-        end
-    end in
   match cache_get q s with
   | Some (inr e) => Fail s (to_rerr e)
-  | Some (inl m) => if aa m then resolve_cnames m q depth s else miss
-  | None => miss
+  | Some (inl m) => if aa m then resolve_cnames m q depth s else resolve_miss q depth s
+  | None => resolve_miss q depth s
   end.
 End Cnames.
 
@@ -559,8 +590,137 @@ Definition resolve_top (fuel : nat) (q : query) (s : st) : res msg :=
 
 End Net.
 
+
+(* ------------------------------------------------------------------------------------------ *)
+(* specification vocabulary (independent of the algorithm): who sent what, and when a record,
+   a server address, a contacted server count as justified *)
+
+Section Spec.
+Variable net : ip -> query -> msg.
+Variable c : cfg.
+
+(* the reply to the logged upstream query contained the record *)
+Definition delivered (e : event) (r : rr) : Prop := In r (all_sections (net (e_ip e) (e_q e))).
+
+(* a record is in bailiwick: some contacted server sent it while being asked as a member of a
+   pool for a zone that encloses the record's owner *)
+Definition Legit (es : list event) (r : rr) : Prop :=
+  exists e, In e es /\ delivered e r /\ is_subzone (e_zone e) (owner r) = true.
+
+Definition is_addr_type (t : N) : Prop := t = T_A \/ t = T_AAAA.
+
+(* the record sat in the answer section of a reply to an address query for [t], asked of a
+   pool whose zone encloses [t] — whatever the record's own owner *)
+Definition Loose (es : list event) (t : name) (rA : rr) : Prop :=
+  exists e, In e es /\ fst (e_q e) = t /\ is_addr_type (snd (e_q e)) /\
+            In rA (an (net (e_ip e) (e_q e))) /\ is_subzone (e_zone e) t = true.
+
+(* address [a] may serve zone [Z]: the server filter allows it, an in-bailiwick NS record
+   owned inside Z's parent names a host [t], and an in-bailiwick address record OWNED BY [t]
+   (or, when not strict, any answer to an address query for [t]) carries [a] *)
+Definition AddrOK (strict : bool) (es : list event) (Z : name) (a : ip) : Prop :=
+  denied (srv_filter c) a = false /\
+  exists rNS t rA,
+    Legit es rNS /\ rdat rNS = RNS t /\ is_subzone (base_name Z) (owner rNS) = true /\
+    rd_ip (rdat rA) = Some a /\
+    ((Legit es rA /\ owner rA = t) \/ (strict = false /\ Loose es t rA)).
+
+Definition PoolOK (strict : bool) (es : list event) (p : pool) : Prop :=
+  (pzone p = [] /\ pips p = roots c) \/ (forall a, In a (pips p) -> AddrOK strict es (pzone p) a).
+
+(* an upstream query went to a member of a justified pool whose zone encloses the query name *)
+Definition EvOK (strict : bool) (es : list event) (e : event) : Prop :=
+  is_subzone (e_zone e) (fst (e_q e)) = true /\ In (e_ip e) (e_pool e) /\
+  PoolOK strict es (mkPool (e_zone e) (e_pool e)).
+
+Definition msg_legit (es : list event) (m : msg) : Prop :=
+  forall r, In r (all_sections m) -> Legit es r /\ ans_ok c r = true.
+
+(* negative cache entries hold a raw reply (or the synthetic empty one) *)
+Definition neg_origin (es : list event) (m : msg) : Prop :=
+  m = empty_msg \/
+  exists e nx, In e es /\ m = net (e_ip e) (e_q e) /\ classify (e_q e) m = inr (PNoRec nx m).
+
+(* optional bound on the number of NS records per message (only for the query bound) *)
+Definition ns_count (m : msg) : nat := length (filter is_ns (all_sections m)).
+Definition wbound (W : option nat) (m : msg) : Prop :=
+  match W with Some w => (ns_count m <= w)%nat | None => True end.
+
+Definition Inv (W : option nat) (strict : bool) (s : st) : Prop :=
+  (forall q m, In (q, CPos m) (rcache s) -> msg_legit (evs s) m /\ wbound W m) /\
+  (forall q nx m, In (q, CNeg nx m) (rcache s) -> neg_origin (evs s) m) /\
+  (forall z p, In (z, p) (nscache s) -> pzone p = z /\ PoolOK strict (evs s) p) /\
+  (forall e, In e (evs s) -> EvOK strict (evs s) e).
+
+(* records an error result carries to the caller *)
+Definition err_records (e : rerr) : list rr :=
+  match e with
+  | ENeg _ soa auth => soa ++ auth
+  | EForward ns glue => ns ++ glue
+  | _ => []
+  end.
+
+(* known-finding class 1: some server answers an address query with an address record owned
+   by another name *)
+Definition LooseFree : Prop :=
+  forall a q r, is_addr_type (snd q) -> In r (an (net a q)) -> rd_ip (rdat r) <> None -> owner r = fst q.
+
+(* known-finding class 2 (negated): every logged reply that counts as "no records" (NXDOMAIN,
+   or NOERROR without an answer: NODATA and referrals) keeps its authority and additional
+   records inside the zone of the pool that was asked *)
+Definition NegClean (es : list event) : Prop :=
+  forall e nx r, In e es ->
+    classify (e_q e) (net (e_ip e) (e_q e)) = inr (PNoRec nx (net (e_ip e) (e_q e))) ->
+    In r (au (net (e_ip e) (e_q e)) ++ ad (net (e_ip e) (e_q e))) ->
+    is_subzone (e_zone e) (owner r) = true.
+End Spec.
+
+(* upper bound on the upstream queries of one zone walk with [k] levels of depth left and at
+   most [w] NS records per reply; and of one whole resolution *)
+Fixpoint walk_bound (w : nat) (k : nat) : nat :=
+  match k with
+  | O => O
+  | S k' => match k' with O => O | _ => 1 + 2 * w + (w + 1) * walk_bound w k' end
+  end.
+Definition query_bound (c : cfg) (w : nat) : nat :=
+  (2 + N.to_nat MAX_CNAME_LOOKUPS) * (walk_bound w (N.to_nat (ns_limit c)) + 1).
+
 (* fuel that is always enough (C19_terminates) *)
 Definition fuel_for (c : cfg) : nat := S (S (N.to_nat (rec_limit c) + N.to_nat (ns_limit c))).
+
+(* a history of client queries on one recursor *)
+Definition state_after (s : st) (r : res msg) : st :=
+  match r with Done s' _ => s' | Fail s' _ => s' | OutOfFuel => s end.
+
+Fixpoint run_history (net : ip -> query -> msg) (choose : list ip -> query -> option ip) (c : cfg)
+  (qs : list query) (s : st) : st :=
+  match qs with
+  | [] => s
+  | q :: qs' => run_history net choose c qs' (state_after s (resolve_top net choose c (fuel_for c) q s))
+  end.
+
+(* the server choice respects the pool *)
+Definition choose_ok (choose : list ip -> query -> option ip) : Prop :=
+  forall l q a, choose l q = Some a -> In a l.
+
+(* finite networks given as a table (used by the correspondence check and by witnesses):
+   unlisted (server, query) pairs are REFUSED; the chosen server of a pool is the first listed
+   one that belongs to it *)
+Definition table := list (ip * query * msg).
+Definition refused : msg := mkMsg 5 false [] [] [].
+
+Fixpoint tnet (t : table) (a : ip) (q : query) : msg :=
+  match t with
+  | [] => refused
+  | (a', q', m) :: t' => if ip_eqb a a' && query_eqb q q' then m else tnet t' a q
+  end.
+
+Fixpoint tchoose (t : table) (ips : list ip) (q : query) : option ip :=
+  match t with
+  | [] => None
+  | (a', q', _) :: t' =>
+      if query_eqb q q' && existsb (ip_eqb a') ips then Some a' else tchoose t' ips q
+  end.
 
 (* ------------------------------------------------------------------------------------------ *)
 (* stub resolver: CachingClient::inner_lookup / handle_noerror CNAME chase with DepthTracker.
